@@ -127,6 +127,18 @@ class World:
         guarded("down", lambda: s.successors_downstream(*starts))
         guarded("iter_f", s.iterate_jobs)
         guarded("iter_t", lambda: s.iterate_jobs(scan_schedulers=True))
+
+        def lazily():
+            """iterate_jobs() consumed step by step while other scans run on the same tree"""
+            seen = []
+            gen = s.iterate_jobs(scan_schedulers=True)
+            for item in gen:
+                seen.append(item)
+                s.check_cycles()
+                for other in s.iterate_jobs():
+                    break
+            return seen
+        guarded("iter_x", lazily)
         out.setdefault("qexc", "none")
         out["len"] = len(s)
         return out
